@@ -712,3 +712,97 @@ Section EdRoundtrip.
     f_equal. eapply ed25519_roundtrip_partial; eauto.
   Qed.
 End EdRoundtrip.
+
+(* ------------------------------------------------------------------ *)
+(* parameterised groups: residue groups with arbitrary (P, Q) and the generic
+   Edwards decoder with arbitrary (p, a, d, n) *)
+Section Param.
+  Context {F : Type} (O : fops F).
+  Hypothesis Rth : ring_theory (f0 O) (f1 O) (fadd O) (fmul O) (fsub O) (fneg O) eq.
+  Hypothesis feqb_ok : forall a b, feqb O a b = true -> a = b.
+  Hypothesis feqb_refl : forall a, feqb O a a = true.
+  Add Ring Fring3 : Rth.
+  Notation "a +f b" := (fadd O a b) (at level 50, left associativity).
+  Notation "a -f b" := (fsub O a b) (at level 50, left associativity).
+  Notation "a *f b" := (fmul O a b) (at level 40, left associativity).
+
+  (* accepted iff 0 < v < P and v^Q = 1 in the ring: membership in the subgroup of
+     order Q for EVERY parameter set, whatever the cofactor *)
+  Theorem residue_decode_iff P Q s v :
+    residue_decode O P Q s = Ok v <->
+    v = be_decode s /\ 0 < v < P /\ fpow O (fofZ O v) Q = f1 O.
+  Proof.
+    unfold residue_decode. split.
+    - destruct (Z.ltb_spec 0 (be_decode s)); cbn [andb]; [|discriminate].
+      destruct (Z.ltb_spec (be_decode s) P); cbn [andb]; [|discriminate].
+      destruct (feqb O _ _) eqn:E; [|discriminate].
+      intros H'; inversion H'; subst v. apply feqb_ok in E. repeat split; try lia; exact E.
+    - intros (-> & Hr & Hm). destruct (Z.ltb_spec 0 (be_decode s)); [|lia].
+      destruct (Z.ltb_spec (be_decode s) P); [|lia]. cbn [andb]. rewrite Hm, feqb_refl. reflexivity.
+  Qed.
+
+  Theorem residue_decode_total P Q s : residue_decode O P Q s <> Panic.
+  Proof. unfold residue_decode. destruct (_ && _); discriminate. Qed.
+
+  Theorem residue_roundtrip P Q n v :
+    0 < v < P -> P <= 256 ^ Z.of_nat n -> fpow O (fofZ O v) Q = f1 O ->
+    residue_decode O P Q (residue_encode n v) = Ok v.
+  Proof.
+    intros Hv Hn Hm. apply residue_decode_iff. unfold residue_encode.
+    rewrite be_decode_be_bytes by lia. rewrite Z.mod_small by lia. repeat split; try lia; exact Hm.
+  Qed.
+
+  Variables (p : Z) (a d sqrtm1 : F) (n : nat).
+
+  (* n = PointLen >= 1 for every curve; with n = 0 the (repaired) length check would let
+     the empty string through to b[0] *)
+  Theorem edg_decode_total s : (0 < n)%nat -> edg_decode O p a d sqrtm1 n s <> Panic.
+  Proof.
+    intros Hn. unfold edg_decode. destruct (Nat.eqb_spec (length s) n) as [L|L]; cbn [negb]; [|discriminate].
+    destruct (byte_at_some (rev s) 0 ltac:(rewrite rev_length; lia)) as [b ->].
+    destruct (gsqrt O p sqrtm1 _); discriminate.
+  Qed.
+
+  Theorem edg_wrong_length_rejected s : length s <> n -> edg_decode O p a d sqrtm1 n s = Err.
+  Proof. intros H. unfold edg_decode. destruct (Nat.eqb_spec (length s) n); [contradiction|reflexivity]. Qed.
+
+  Hypothesis sqrtm1_ok : p mod 4 <> 3 -> sqrtm1 *f sqrtm1 = fneg O (f1 O).
+
+  Lemma gsqrt_sq t x : gsqrt O p sqrtm1 t = Some x -> x *f x = t.
+  Proof.
+    unfold gsqrt. destruct (Z.eqb_spec (p mod 4) 3) as [E4|E4].
+    - destruct (feqb O _ t) eqn:E1; [|discriminate]. intros H; inversion H; subst. apply feqb_ok. exact E1.
+    - set (r := fpow O t ((p + 3) / 8)).
+      destruct (feqb O (r *f r) t) eqn:E1.
+      + intros H; inversion H; subst. apply feqb_ok. exact E1.
+      + destruct (feqb O (r *f r) (fneg O t)) eqn:E2; [|discriminate].
+        intros H; inversion H; subst. apply feqb_ok in E2.
+        assert (E : r *f sqrtm1 *f (r *f sqrtm1) = (r *f r) *f (sqrtm1 *f sqrtm1)) by ring.
+        rewrite E, E2, (sqrtm1_ok E4). ring.
+  Qed.
+
+  (* accepted => on the curve a x^2 + y^2 = 1 + d x^2 y^2, for every parameter set;
+     premises: inverse law on the denominator, which does not vanish (d non-square) *)
+  Theorem edg_decode_member s x y :
+    (forall t, t <> f0 O -> t *f ginv O p t = f1 O) ->
+    (forall y, a -f d *f (y *f y) <> f0 O) ->
+    edg_decode O p a d sqrtm1 n s = Ok (x, y) ->
+    a *f (x *f x) +f y *f y = f1 O +f d *f (x *f x) *f (y *f y).
+  Proof.
+    intros Hinv Hnz. unfold edg_decode. destruct (negb (Nat.eqb (length s) n)); [discriminate|].
+    destruct (byte_at (rev s) 0) as [b0|]; [|discriminate].
+    set (y0 := fofZ O (be_decode (b0 mod 128 :: tl (rev s)))).
+    set (t2 := a -f d *f (y0 *f y0)).
+    destruct (gsqrt O p sqrtm1 _) as [x0|] eqn:Es; [|discriminate].
+    intros H; inversion H; subst x y; clear H.
+    apply gsqrt_sq in Es.
+    assert (Hsq : forall c : bool, (if c then x0 else fneg O x0) *f (if c then x0 else fneg O x0) = x0 *f x0)
+      by (intros c; destruct c; ring).
+    rewrite Hsq, Es.
+    pose proof (Hinv t2 (Hnz y0)) as Hi.
+    assert (E : a *f ((f1 O -f y0 *f y0) *f ginv O p t2) +f y0 *f y0 =
+                (f1 O +f d *f ((f1 O -f y0 *f y0) *f ginv O p t2) *f (y0 *f y0)) +f
+                ((f1 O -f y0 *f y0) *f (t2 *f ginv O p t2) -f (f1 O -f y0 *f y0))) by (unfold t2; ring).
+    rewrite E, Hi. ring.
+  Qed.
+End Param.
